@@ -12,6 +12,7 @@ pub enum Site {
     IterNextBack,
     IterLen,
     IntoIter,
+    Closure,
 }
 
 impl Site {
@@ -26,6 +27,7 @@ impl Site {
             "next_back" => Site::IterNextBack,
             "len" => Site::IterLen,
             "into_iter" => Site::IntoIter,
+            "closure" => Site::Closure,
             _ => return None,
         })
     }
@@ -34,7 +36,7 @@ impl Site {
 thread_local! {
     static ARMED: Cell<Option<(Site, u32)>> = const { Cell::new(None) };
     static FIRED: Cell<bool> = const { Cell::new(false) };
-    static CALLS: Cell<[u32; 9]> = const { Cell::new([0; 9]) };
+    static CALLS: Cell<[u32; 10]> = const { Cell::new([0; 10]) };
 }
 
 pub struct InjectedPanic;
@@ -54,7 +56,7 @@ pub fn fired() -> bool {
 }
 
 pub fn reset_counts() {
-    CALLS.with(|c| c.set([0; 9]));
+    CALLS.with(|c| c.set([0; 10]));
 }
 
 pub fn calls(site: Site) -> u32 {
